@@ -16,6 +16,10 @@ use std::sync::atomic::{AtomicU64, Ordering};
 use std::sync::Mutex;
 
 pub const FOREIGN: u32 = u32::MAX - 7;
+/// resting on the book as far as a user can tell: placed and not completed (whatever the status is called)
+pub fn resting(o: &OrderRec) -> bool {
+    o.status != NEW && o.status != FILLED && o.status != CANCELLED && o.status != crate::snap::REJECTED
+}
 pub const ASSET: usize = 1;
 
 #[derive(Clone, Debug, PartialEq)]
@@ -263,7 +267,7 @@ pub fn judge_round(c: &AgentCfg, before: &[OrderRec], mid: f64, after_update: &[
             if b.trader == FOREIGN {
                 return bad("foreign-order-cancelled", format!("{:?}", a));
             }
-            if b.status != ACTIVE {
+            if !resting(b) {
                 return bad("cancelled-order-was-not-active", format!("{:?} -> {:?}", b, a));
             }
             if !is_own(b.trader) {
@@ -281,7 +285,7 @@ pub fn judge_round(c: &AgentCfg, before: &[OrderRec], mid: f64, after_update: &[
         Some(m) => cnt.get(&(t, m)).copied().unwrap_or(0),
         None => cnt.get(&(t, true)).copied().unwrap_or(0) + cnt.get(&(t, false)).copied().unwrap_or(0),
     };
-    let group_active_before: Vec<&OrderRec> = before.iter().filter(|o| o.status == ACTIVE && is_own(o.trader)).collect();
+    let group_active_before: Vec<&OrderRec> = before.iter().filter(|o| resting(o) && is_own(o.trader)).collect();
     match c {
         AgentCfg::Random { rate, .. } => {
             // per-trader counters in one pass each (populations of tens of thousands)
@@ -290,17 +294,17 @@ pub fn judge_round(c: &AgentCfg, before: &[OrderRec], mid: f64, after_update: &[
             let mut new_cnt: BTreeMap<u32, usize> = BTreeMap::new();
             let mut had_active: BTreeMap<u32, bool> = BTreeMap::new();
             let mut filled_instead: BTreeMap<u32, bool> = BTreeMap::new();
-            for o in after_update.iter().filter(|o| o.status == NEW || o.status == ACTIVE) {
+            for o in after_update.iter().filter(|o| o.status == NEW || resting(o)) {
                 *live_upd.entry(o.trader).or_insert(0) += 1;
             }
-            for o in after_step.iter().filter(|o| o.status == NEW || o.status == ACTIVE) {
+            for o in after_step.iter().filter(|o| o.status == NEW || resting(o)) {
                 *live_step.entry(o.trader).or_insert(0) += 1;
             }
             for o in new {
                 *new_cnt.entry(o.trader).or_insert(0) += 1;
             }
             for (b, a) in before.iter().zip(after_step.iter()) {
-                if b.status == ACTIVE {
+                if resting(b) {
                     had_active.insert(b.trader, true);
                     if a.status == FILLED {
                         filled_instead.insert(b.trader, true);
@@ -411,7 +415,7 @@ fn cancel_clause(p_cancel: f32, group_active_before: &[&OrderRec], before: &[Ord
         if p_cancel <= 0.0 && a.status == CANCELLED {
             return Err(("action-with-probability-zero".into(), format!("order {:?} was cancelled with p_cancel {}", a, p_cancel)));
         }
-        if p_cancel >= 1.0 && a.status == ACTIVE {
+        if p_cancel >= 1.0 && resting(a) {
             return Err(("no-action-with-probability-one".into(), format!("order {:?} survived with p_cancel {}", a, p_cancel)));
         }
     }
@@ -427,12 +431,14 @@ pub struct Acc {
     pub cancels_seen: AtomicU64,
     /// forced-cancellation scenarios whose calibration held (a verdict was reached)
     pub forced_decided: AtomicU64,
+    /// agent orders found resting with part of their volume executed when an update started
+    pub partly_filled_seen: AtomicU64,
     pub fails: Mutex<BTreeMap<String, (String, serde_json::Value)>>,
 }
 
 impl Acc {
     pub fn new() -> Self {
-        Acc { execs: AtomicU64::new(0), rounds: AtomicU64::new(0), orders_seen: AtomicU64::new(0), cancels_seen: AtomicU64::new(0), forced_decided: AtomicU64::new(0), fails: Mutex::new(BTreeMap::new()) }
+        Acc { execs: AtomicU64::new(0), rounds: AtomicU64::new(0), orders_seen: AtomicU64::new(0), cancels_seen: AtomicU64::new(0), forced_decided: AtomicU64::new(0), partly_filled_seen: AtomicU64::new(0), fails: Mutex::new(BTreeMap::new()) }
     }
     pub fn fail(&self, sig: String, detail: String, replay: serde_json::Value) {
         self.fails.lock().unwrap().entry(sig).or_insert((detail, replay));
@@ -445,8 +451,15 @@ pub fn ans_json(s: &[Ans]) -> serde_json::Value {
 
 /// Run `rounds` update+step rounds; `scripts[r]` scripts the generator handed to update r.
 pub fn run_scripted(acc: &Acc, multi: bool, c: &AgentCfg, start: StartBook, scripts: &[Vec<Ans>], seed: u64) {
+    run_scripted_opt(acc, multi, c, start, scripts, seed, false)
+}
+
+/// `nibble`: after every round the harness sends a market order for ONE unit against each side whose
+/// best-priced orders all belong to the agents (and hold at least two units): the agents then start
+/// their next update owning orders that are still resting but partly executed.
+pub fn run_scripted_opt(acc: &Acc, multi: bool, c: &AgentCfg, start: StartBook, scripts: &[Vec<Ans>], seed: u64, nibble: bool) {
     acc.execs.fetch_add(1, Ordering::Relaxed);
-    let replay = || json!({"engine": "agentsx", "multi_asset": multi, "agent": format!("{:?}", c), "start_book": format!("{:?}", start), "update_scripts": scripts.iter().map(|s| ans_json(s)).collect::<Vec<_>>(), "fallback_seed": seed});
+    let replay = || json!({"engine": "agentsx", "multi_asset": multi, "agent": format!("{:?}", c), "start_book": format!("{:?}", start), "update_scripts": scripts.iter().map(|s| ans_json(s)).collect::<Vec<_>>(), "fallback_seed": seed, "one_unit_market_orders_against_agent_quotes_between_rounds": nibble});
     let w = util::subject(|| World::new(multi, c, start, 500));
     let mut w = match w {
         Ok(w) => w,
@@ -476,7 +489,32 @@ pub fn run_scripted(acc: &Acc, multi: bool, c: &AgentCfg, start: StartBook, scri
                 return;
             }
         }
+        if nibble && r > 0 {
+            let pre = util::subject(|| {
+                let ords = w.orders();
+                let mut sent = false;
+                for bid_side in [true, false] {
+                    let act: Vec<&OrderRec> = ords.iter().filter(|o| resting(o) && o.bid == bid_side && o.vol > 0).collect();
+                    let best = if bid_side { act.iter().map(|o| o.price).max() } else { act.iter().map(|o| o.price).min() };
+                    if let Some(best) = best {
+                        if act.iter().filter(|o| o.price == best).all(|o| o.trader != FOREIGN && o.vol >= 2) {
+                            w.place_foreign(!bid_side, 1, None);
+                            sent = true;
+                        }
+                    }
+                }
+                if sent {
+                    let mut prng = ScriptRng::new(vec![], 71 + r as u64);
+                    w.step(&mut prng);
+                }
+            });
+            if let Err(m) = pre {
+                acc.fail(format!("agents/abort-in-step/{}/{}", kind(c), util::panic_sig(&m)), m, replay());
+                return;
+            }
+        }
         let before = w.orders();
+        acc.partly_filled_seen.fetch_add(before.iter().filter(|o| resting(o) && o.trader != FOREIGN && o.vol > 0 && o.vol < o.start_vol).count() as u64, Ordering::Relaxed);
         let other_before = w.other_asset_orders();
         let mid = w.mid();
         let mut rng = ScriptRng::new(script.clone(), seed.wrapping_add(r as u64 * 977));
@@ -540,7 +578,7 @@ pub fn forced_cancellation(acc: &Acc, multi: bool, n: u16, tick: u32, p_cancel: 
         let mut placed_in: Vec<Vec<usize>> = Vec::new();
         for round in 0..4usize {
             let before = w.orders();
-            let live: Vec<usize> = before.iter().filter(|o| own(o) && o.status == ACTIVE).map(|o| o.id).collect();
+            let live: Vec<usize> = before.iter().filter(|o| own(o) && resting(o)).map(|o| o.id).collect();
             let k = live.len() + 2;
             let script: Vec<Ans> = match round {
                 2 => vec![Ans::Raw(u64::MAX); k],
@@ -804,6 +842,48 @@ pub fn c16(tier: &str) -> i32 {
             }
         }
     });
+    // agents whose resting orders are partly executed between their updates (one-unit market orders of the
+    // harness): the orders are still theirs and still live - one live order per random agent, cancellation
+    // with probability one, at most one new order per kind and trader
+    {
+        let before_pf = acc.partly_filled_seen.load(Ordering::Relaxed);
+        let mut pf_cfgs: Vec<AgentCfg> = Vec::new();
+        for tick in [1u32, 2] {
+            for n in [1usize, 3] {
+                pf_cfgs.push(AgentCfg::Random { n, tick_range: (495, 506), vol_range: (2, 5), tick, rate: 1.0 });
+                pf_cfgs.push(AgentCfg::Random { n, tick_range: (495, 506), vol_range: (2, 5), tick, rate: 0.3 });
+                for p_cancel in [1.0f32, 0.0, 0.3] {
+                    pf_cfgs.push(AgentCfg::Noise { start: 10, n: n as u16, tick, p_limit: 1.0, p_market: 0.0, p_cancel, vol: 7, mu: 0.0, sigma: 1.0 });
+                    pf_cfgs.push(AgentCfg::Momentum { start: 20, n: n as u16, tick, p_cancel, vol: 5, decay: 1.0, demand: 100.0, scale: 0.5, ratio: 1.0, mu: 0.0, sigma: 1.0 });
+                }
+            }
+        }
+        let seed = crate::report::seed() as u64 + 1;
+        let devs = scripts_with_deviations(seed, n_draws, &values, 1);
+        std::thread::scope(|sc| {
+            for multi in [false, true] {
+                for c in &pf_cfgs {
+                    let (acc, devs) = (&acc, &devs);
+                    sc.spawn(move || {
+                        for start in [StartBook::Empty, StartBook::TwoSided] {
+                            for round in 1..4usize {
+                                for d in devs {
+                                    let mut scripts: Vec<Vec<Ans>> = vec![vec![]; 4];
+                                    scripts[round] = d.clone();
+                                    run_scripted_opt(acc, multi, c, start, &scripts, seed, true);
+                                }
+                            }
+                        }
+                    });
+                }
+            }
+        });
+        let pf = acc.partly_filled_seen.load(Ordering::Relaxed) - before_pf;
+        out.set("partly_executed_agent_orders_at_update_time", json!(pf));
+        if pf == 0 {
+            out.machinery_errors.push("C16: the partial-fill scenarios never produced a partly executed agent order".into());
+        }
+    }
     for multi in [false, true] {
         for n in [1u16, 3] {
             for tick in [1u32, 2] {
